@@ -35,10 +35,17 @@ func verifNoMapr(d *DLog, table string, data map[string]interface{}) string { re
 type VerifLogger struct {
 	Out    []byte   // everything "printed", in order
 	Calls  []string // one entry per logger call (the text of that call, with its newline if any)
+	Raws   []string // Raw calls only (content)
+	Logs   []string // Log calls only (log lines)
 	Colors bool
+	Pace   func() // called before every print: how long the output sink takes
 }
 
 func (l *VerifLogger) Log(now time.Time, message string) {
+	if l.Pace != nil {
+		l.Pace()
+	}
+	l.Logs = append(l.Logs, message)
 	l.Out = append(l.Out, message...)
 	l.Out = append(l.Out, '\n')
 	l.Calls = append(l.Calls, message+"\n")
@@ -49,6 +56,10 @@ func (l *VerifLogger) LogWithColors(now time.Time, message, colored string) {
 	l.Calls = append(l.Calls, colored+"\n")
 }
 func (l *VerifLogger) Raw(now time.Time, message string) {
+	if l.Pace != nil {
+		l.Pace()
+	}
+	l.Raws = append(l.Raws, message)
 	l.Out = append(l.Out, message...)
 	l.Calls = append(l.Calls, message)
 }
